@@ -34,13 +34,22 @@ def run(R, tier):
     warnings.filterwarnings('ignore')
     rng = R.rng
     R.broken = getattr(R, 'broken', [])
-    n_alg = 3 if tier == 'quick' else 40
+    n_alg = 4 if tier == 'quick' else 40
     for ai in range(n_alg):
         d = rng.choice((2, 3))
         spec = {'sig': [rng.choice((1, 1, -1)) for _ in range(d)]}
         probe = instr.Probe()
+        use_wrapper = ai % 2 == 1
         with probe.active():
-            alg = algs.make_impl(spec)
+            if use_wrapper:
+                def wrap(f):
+                    def g(*a): return f(*a)
+                    g.__name__ = f.__name__
+                    return g
+                alg = algs.make_impl(spec, wrapper=wrap)     # a JIT-style decorator returning a new callable
+            else:
+                alg = algs.make_impl(spec)
+            R.count('wrapper=' + ('set' if use_wrapper else 'None'))
             canon = list(alg.canon2bin.values())
             top = []
             ops = [(o, 2) for o in OPS2] + [(o, 1) for o in OPS1]
@@ -55,6 +64,16 @@ def run(R, tier):
                     else:
                         pats = [tuple(rng.sample(canon, rng.randint(1, 2))) for _ in range(ar)]
                     plan.append((op, pats))
+            # patterns whose result is identically zero / empty, and two storage orders of one blade set
+            # used alternately (A, B, A, B): each must be generated once
+            k1 = rng.choice(canon[1:])
+            plan.append(('op', [(k1,), (k1,)]))
+            plan.append(('gp', [(), (k1,)]))
+            two = tuple(rng.sample(canon, 2))
+            plan.append(('gp', [two, (k1,)]))
+            plan.append(('gp', [two[::-1], (k1,)]))
+            plan.append(('reverse', [two]))
+            plan.append(('reverse', [two[::-1]]))
             order = []
             for op, pats in plan:
                 order.append((op, pats, 'int' if op not in ('sqrt',) else 'float', True))
@@ -66,6 +85,9 @@ def run(R, tier):
             later = order[len(plan):]
             rng.shuffle(later)
             order = order[:len(plan)] + later
+            for rep in range(3):           # A, B, A, B alternation of the two storage orders
+                order += [('gp', [two, (k1,)], 'float', False), ('gp', [two[::-1], (k1,)], 'float', False),
+                          ('reverse', [two], 'int', False), ('reverse', [two[::-1]], 'int', False)]
             seen = set()
             for op, pats, kind, first in order:
                 mvs = [oc.make_mv(alg, list(p), coeffs(kind, rng, len(p))) for p in pats]
@@ -102,7 +124,7 @@ def run(R, tier):
                 R.violation({'clause': 'generated-twice'}, {'algebra': spec, 'duplicates': sorted(map(str, dup))},
                             f'code generated more than once for {sorted(map(str, dup))[:3]} in Algebra({algs.describe(spec)})')
             if not any(t[2] for t in top):
-                compare_with_model(R, f'C10_{ai}', alg, {}, False, top, probe, algs.describe(spec))
+                compare_with_model(R, f'C10_{ai}', alg, {}, use_wrapper, top, probe, algs.describe(spec))
             else:
                 R.count('history-with-failed-generation (not model-compared)')
 
